@@ -73,4 +73,11 @@ def landscapeCropped (zncc : Bool) (a b : Img) (m : Rat × Rat × Rat) : List (R
           out := out ++ [responseAt a' b' P cval (j0 + w.1 + 1, j1 + w.2.1 + 1, j2 + w.2.2 + 1)]
     return out
 
+/-- `zncc(a, b)` / `ncc(a, b)` of `_zncc.py` as `(num, den2)`: `score = num / sqrt den2`. -/
+def scorePair (zncc : Bool) (a b : Img) : Rat × Rat :=
+  let a' := if zncc then a.map (· - a.mean) else a
+  let b' := if zncc then b.map (· - b.mean) else b
+  let dot (u v : Img) : Rat := (Array.zipWith (· * ·) u.data v.data).foldl (· + ·) 0
+  (dot a' b', dot a' a' * dot b' b')
+
 end Model
